@@ -196,7 +196,7 @@ def batches(rng, tier):
         for a in range(-8, 9):
             for b in range(a, 9):
                 combos = [(e, d) for e in ENGINES for d in DECOS] if thorough else [(e, DECOS[(k // 2) % 3]) for e in ENGINES]
-                for eng, deco in combos:
+                for eng, deco in combos * (2 if thorough else 1):
                     specs.append(Spec("I", t=t, deco=deco, eng=eng, seed=seed_for(r), ctor=CTORS[k % 5], segs=[("new", a, b, 400)]))
                     k += 1
     yield Batch("int-small-intervals", materialise(specs), exhaustive=True,
@@ -260,7 +260,7 @@ def batches(rng, tier):
     # 5. histories: several variates on one generator, param()/reset() on a held distribution, wide intervals
     r = rng.fork("hist")
     specs = []
-    for _ in range(2500 if thorough else 400):
+    for _ in range(8000 if thorough else 400):
         t = r.choice("sil")
         ctor = r.choice(CTORS + ["d", "d"])
         deco = r.choice(DECOS)
@@ -281,7 +281,7 @@ def batches(rng, tier):
     # 5b. a large sample of seeds on short runs
     r = rng.fork("seeds")
     specs = []
-    for k in range(20000 if thorough else 2500):
+    for k in range(80000 if thorough else 2500):
         t = "sil"[k % 3]
         a, b = interval(r, t, wide=(k % 4 == 0))
         specs.append(Spec("I", t=t, deco=DECOS[(k // 3) % 3], eng=ENGINES[(k // 9) % 2], seed=(r.next() if k % 2 else r.below(1 << 32)),
@@ -291,7 +291,7 @@ def batches(rng, tier):
     # 6. floating point: uniform_real, normal
     r = rng.fork("real")
     specs = []
-    for _ in range(1500 if thorough else 240):
+    for _ in range(5000 if thorough else 240):
         dk, t = r.choice(["ur", "no"]), r.choice("fd")
         ctor = r.choice(CTORS + ["d", "d"])
         segs = []
